@@ -11,11 +11,14 @@ Oracles (all written here / in vlib/wsref.py, no wannierberri code):
  (iii) for every WF pair and every residue class of R modulo the mesh: sum 1/Ndegen == 1 (hence N_mesh per
        pair), every class present, no replica listed twice; recomputed from iRvec_list/Ndegen_list/shift_index
  (iv)  the replicas listed for a pair are exactly the brute-force minimisers of |R + t_b - t_a| (Cartesian) within
-       the tolerance among R = r + N*j, j in [-3,3]^3 (the documented search size), and Ndegen is their number
+       the tolerance among R = r + N*j (all j; or j in [-3,3]^3 = the default search size), Ndegen is their number
  (iv') the real-space matrix returned by q_to_R is  X_grid(R mod N)/Ndegen on the listed replicas and zero
        elsewhere, X_grid being my own O(N^2) inverse DFT of the input
  (v)   do_ws_dist(mp_grid): X(q) at the mesh points unchanged; new X(R) == folded old X / Ndegen on my own
        brute-force replicas; hermiticity preserved.
+ (vi)  get_system_w90 on a synthetic WannierData (CheckPoint with random semi-unitary V(q), EIG with random
+       energies, permuted / integer-shifted k-points): H(q) of the system on the mesh == V^dagger E V, H(R) ==
+       own inverse DFT / Ndegen on the brute-force replicas, hermiticity.
 """
 import numpy as np
 from hypothesis import strategies as st
@@ -34,11 +37,15 @@ RULE = ("lattice from 11 families (+rotation, optionally described by a sheared 
 ASSUMPTIONS = ["Bloch sums carry no Wannier-centre phases (convention of the code, cf. vlib/wbsys.Model.Xk)",
                "centre differences are compared after rounding to ceil(-log10(tol))+1 decimals (8 for negative tol), "
                "as documented in Rvectors.set_Rvec; the brute-force minimisation uses the same rounded difference",
-               "replicas are searched among +-3 super-cells (WignerSeitz default); cases whose true minimiser lies "
-               "outside that range are labelled 'beyond-search' (observation, not a violation)",
+               "replica lists are accepted when they equal the true nearest replicas (brute force over a box that "
+               "provably contains them) OR the nearest ones among the +-3 super-cells searched by the unrepaired "
+               "WignerSeitz class; cases where the two differ are labelled 'beyond-search'.  The explicitly promised "
+               "clauses (round trip, X(-R)=X(R)^dagger, weights) are asserted in every case; a hermiticity failure in "
+               "a 'beyond-search' case gets the bucket 'hermiticity-search-window'",
                "cases in which a candidate sits within 1e-9 of the selection threshold dist_min+tol are ties "
-               "(Inconclusive) for clauses (ii),(iv),(iv'); (i) and (iii) are asserted regardless",
-               "tolerances: round trip 1e-10 relative (DESIGN 2.3), hermiticity 1e-12 relative, weights 1e-12"]
+               "(Inconclusive) for clauses (ii),(iv); (i), (iii), (iv') are asserted before the tie test",
+               "tolerances: round trip 1e-10 relative (DESIGN 2.3), hermiticity 1e-12 relative, weights 1e-12; "
+               "do_ws_dist: 1e-9 relative + 1e-8 absolute (it drops R-vectors whose entries are all below 1e-8)"]
 MIN_NONTRIVIAL = {"quick": 100, "thorough": 1500}
 TOL_RT = 1e-10
 TOL_H = 1e-12
@@ -305,6 +312,58 @@ def check_ws(case):
               f"tol={tol_in:g}", f"nw={nw}", f"N={'1' if N == 1 else ('2-8' if N <= 8 else '9-60')}")
 
 
+def _compare_real_space(L, mp, wcc, tol_in, iRvec, mats, grids, what, bucket, tol_abs=0.0):
+    """X(R)_ab must be grid_ab(R mod N)/Ndegen on my own brute-force replicas of the pair (a,b) and zero elsewhere
+    (either the true nearest replicas or, for the unrepaired code, the nearest ones inside the +-3 window);
+    Hermitian matrices must obey X(-R)=X(R)^dagger.  mats / grids: dict key -> arrays.  returns (maxdeg, beyond)"""
+    nw = wcc.shape[0]
+    digits, tol = wsref.shift_digits(tol_in)
+    sround = np.round(-wcc[:, None, :] + wcc[None, :, :], digits)
+    classes = [tuple(int(x) for x in r) for r in wsref.residue_classes(mp)]
+    ref = _Reference(L, mp, tol)
+    tie = False
+    beyond = False
+    sets_win, sets_exact = {}, {}
+    maxdeg = 1
+    for a in range(nw):
+        for b in range(nw):
+            win, exact, t = ref(sround[a, b])
+            if exact is None:
+                raise Inconclusive("exact replica search too large")
+            tie = tie or t
+            sets_win[a, b], sets_exact[a, b] = win, exact
+            beyond = beyond or win != exact
+            maxdeg = max(maxdeg, max(len(x) for x in exact))
+    if tie:
+        raise Inconclusive("replica on the selection threshold (tie)")
+    idx_new = {tuple(int(x) for x in R): i for i, R in enumerate(iRvec)}
+    if len(idx_new) != len(iRvec):
+        raise Violation("duplicate-R", f"R list {what} contains a vector twice")
+    allR = sorted(set(idx_new) | {R for sel in (sets_win, sets_exact) for v in sel.values() for c in v for R in c})
+    pos = {R: i for i, R in enumerate(allR)}
+    for k, grid in grids.items():
+        got = np.zeros((len(allR),) + grid.shape[3:], dtype=complex)
+        for R, i in idx_new.items():
+            got[pos[R]] = mats[k][i]
+        errs = []
+        for sel_sets in (sets_exact, sets_win):
+            exp = np.zeros_like(got)
+            for (a, b), sets in sel_sets.items():
+                for ic, c in enumerate(classes):
+                    for R in sets[ic]:
+                        exp[pos[R], a, b] = grid[c][a, b] / len(sets[ic])
+            # vectors dropped by exclude_zeros (all entries < 1e-8 absolute) compare as zero
+            errs.append(maxabs(got - exp) / (1 + maxabs(exp)))
+            if not beyond:
+                break
+        if min(errs) > 1e-9 + tol_abs:
+            raise Violation(bucket, f"{k}(R) {what} differs from grid(R mod N)/Ndegen on the brute-force "
+                                    f"replicas by {min(errs):.2e}")
+        if k in wbsys.HERMITIAN_KEYS:
+            _minus_R_check(iRvec, mats[k], f"{k} {what}", tol_abs=tol_abs, search_window=beyond)
+    return maxdeg, beyond
+
+
 # ------------------------------------------------------------------------------------------------
 # (v) do_ws_dist on an existing system
 
@@ -346,54 +405,14 @@ def check_remap(case):
         if d > 1e-9:
             raise Violation("remap-mesh-values", f"{k}(q) on the mesh changed by {d:.2e} (relative) in do_ws_dist")
     # real-space content against own brute force
-    digits, tol = wsref.shift_digits(tol_in)
-    wcc = np.array(s.wannier_centers_red)
-    sround = np.round(-wcc[:, None, :] + wcc[None, :, :], digits)
-    classes = [tuple(int(x) for x in r) for r in wsref.residue_classes(mp)]
-    ref = _Reference(L, mp, tol)
-    tie = False
-    beyond = False
-    sets_win, sets_exact = {}, {}
-    maxdeg = 1
-    for a in range(nw):
-        for b in range(nw):
-            win, exact, t = ref(sround[a, b])
-            if exact is None:
-                raise Inconclusive("exact replica search too large")
-            tie = tie or t
-            sets_win[a, b], sets_exact[a, b] = win, exact
-            beyond = beyond or win != exact
-            maxdeg = max(maxdeg, max(len(x) for x in exact))
-    if tie:
-        raise Inconclusive("replica on the selection threshold (tie)")
-    idx_new = {tuple(int(x) for x in R): i for i, R in enumerate(new.iRvec)}
-    if len(idx_new) != len(new.iRvec):
-        raise Violation("duplicate-R", "R list after do_ws_dist contains a vector twice")
-    allR = sorted(set(idx_new) | {R for sel in (sets_win, sets_exact) for v in sel.values() for c in v for R in c})
-    pos = {R: i for i, R in enumerate(allR)}
+    folds = {}
     for k, Xold in model.mats.items():
         fold = np.zeros(tuple(mp) + Xold.shape[1:], dtype=complex)
         for R, X in zip(model.iRvec, Xold):
             fold[tuple(int(x) for x in (R % mp))] += X
-        got = np.zeros((len(allR),) + Xold.shape[1:], dtype=complex)
-        for R, i in idx_new.items():
-            got[pos[R]] = new.mats[k][i]
-        errs = []
-        for sel_sets in (sets_exact, sets_win):  # true nearest replicas, or nearest inside the default +-3 window
-            exp = np.zeros_like(got)
-            for (a, b), sets in sel_sets.items():
-                for ic, c in enumerate(classes):
-                    for R in sets[ic]:
-                        exp[pos[R], a, b] = fold[c][a, b] / len(sets[ic])
-            # vectors dropped by exclude_zeros (all entries < 1e-8 absolute) compare as zero
-            errs.append(maxabs(got - exp) / (1 + maxabs(exp)))
-            if not beyond:
-                break
-        if min(errs) > 1e-9 + 1e-8:
-            raise Violation("remap-real-space", f"{k}(R) after do_ws_dist differs from folded/Ndegen on the brute-force "
-                                                f"replicas by {min(errs):.2e}")
-        if k in wbsys.HERMITIAN_KEYS:
-            _minus_R_check(new.iRvec, new.mats[k], f"{k} after do_ws_dist", tol_abs=1e-8, search_window=beyond)
+        folds[k] = fold
+    maxdeg, beyond = _compare_real_space(L, mp, np.array(s.wannier_centers_red), tol_in, new.iRvec, new.mats, folds,
+                                         "after do_ws_dist", "remap-real-space", tol_abs=1e-8)
     collide = len({tuple(r) for r in (model.iRvec % mp)}) < len(model.iRvec)
     outside = bool(np.any((model.wcc_red < 0) | (model.wcc_red >= 1)))
     return ok(maxdeg > 1 or outside or collide, "Ndegen>1" if maxdeg > 1 else "Ndegen=1",
@@ -402,5 +421,71 @@ def check_remap(case):
               "keys=" + "+".join(sorted(model.mats)), f"tol={case['tol']}", "beyond-search" if beyond else None)
 
 
+# ------------------------------------------------------------------------------------------------
+# the same through get_system_w90 with a synthetic checkpoint (random semi-unitary V(q), random band energies)
+
+@st.composite
+def w90_case_st(draw):
+    lat = draw(wbsys.lattice_st())
+    shear = draw(st.one_of(st.none(), st.none(), st.lists(st.integers(-2, 2), min_size=3, max_size=3)))
+    mp = draw(mesh_st(hi=4, nmax=36))
+    N = mp[0] * mp[1] * mp[2]
+    nw = draw(st.sampled_from([2, 1, 3]))
+    ckind, centres = draw(centres_st(nw, mp))
+    perm = draw(st.one_of(st.permutations(list(range(N))), st.just(list(range(N)))))
+    return dict(lat=lat, shear=shear, mp=mp, nw=nw, nb=nw + draw(st.integers(0, 2)), ckind=ckind, centres=centres,
+                perm=list(perm), kshift=draw(st.booleans()), tol=draw(st.sampled_from(_TOLS)),
+                fftlib=draw(st.sampled_from(["numpy", "fftw"])), rs=draw(st.integers(0, 2 ** 32)))
+
+
+def check_w90(case):
+    from wannierberri.w90files.chk import CheckPoint
+    from wannierberri.w90files.eig import EIG
+    from wannierberri.w90files.wandata import WannierData
+    from wannierberri.system.system_w90 import get_system_w90
+    L = _lattice(case)
+    mp = np.array(case["mp"], dtype=int)
+    N = int(np.prod(mp))
+    nw, nb = case["nw"], case["nb"]
+    wcc = np.array(case["centres"], dtype=float).reshape(nw, 3)
+    rng = rng_of(case["rs"])
+    perm = np.array(case["perm"], dtype=int)
+    kint = wsref.residue_classes(mp)[perm]
+    G = rng.integers(-1, 2, size=(N, 3)) if case["kshift"] else np.zeros((N, 3), dtype=int)
+    kpt_red = kint / mp[None, :] + G
+    V = []
+    for _ in range(N):
+        q, _r = np.linalg.qr(crandom(rng, (nb, nb)))
+        V.append(q[:, :nw])
+    E = rng.uniform(-1, 1, size=(N, nb))
+    Hq = np.array([V[ik].conj().T @ np.diag(E[ik]) @ V[ik] for ik in range(N)])
+    Hq = 0.5 * (Hq + _dagger(Hq))
+    chk = CheckPoint(real_lattice=L.copy(), num_wann=nw, num_bands=nb, num_kpts=N, wannier_centers_cart=wcc @ L,
+                     wannier_spreads=np.ones(nw), v_matrix=V, kpt_red=kpt_red.copy(), mp_grid=mp.copy())
+    wd = WannierData()
+    wd.set_chk(val=chk)
+    wd.set_file("eig", EIG(data={ik: E[ik].copy() for ik in range(N)}, NK=N))
+    s = get_system_w90(wd, symmetrize=False, ws_dist_tol=case["tol"], fftlib=case["fftlib"])
+    H = np.array(s.get_R_mat("Ham"))
+    iRvec = np.array(s.rvec.iRvec, dtype=int)
+    d = reldiff(wsref.bloch_sum(iRvec, H, kint / mp[None, :]), Hq)
+    if d > TOL_RT:
+        raise Violation("w90-roundtrip", f"H(q) of the system differs from V^dagger E V on the ab-initio mesh by {d:.2e}")
+    if not np.array_equal(np.array(s.NKFFT_recommended), mp):
+        raise Violation("w90-NKFFT", f"NKFFT_recommended {s.NKFFT_recommended} != mp_grid {mp.tolist()}")
+    if reldiff(np.array(s.wannier_centers_cart), wcc @ L) > 1e-13:
+        raise Violation("w90-centres", "Wannier centres of the system differ from the checkpoint")
+    maxdeg, beyond = _compare_real_space(L, mp, np.array(s.wannier_centers_red), case["tol"], iRvec, {"Ham": H},
+                                         {"Ham": wsref.grid_dft(Hq, kint, mp)}, "from get_system_w90",
+                                         "w90-real-space")
+    outside = bool(np.any((wcc < 0) | (wcc >= 1)))
+    permuted = bool(np.any(perm != np.arange(N)))
+    return ok(maxdeg > 1 or outside or permuted, "Ndegen>1" if maxdeg > 1 else "Ndegen=1",
+              "outside" if outside else None, "permuted" if permuted else "natural-order",
+              "kshift" if case["kshift"] else None, f"ckind={case['ckind']}", f"lat={case['lat']['kind']}",
+              "disentangled" if nb > nw else "isolated", "beyond-search" if beyond else None, f"tol={case['tol']:g}")
+
+
 SUBS = [Sub("ws", ws_case_st(), check_ws, quick=900, thorough=16000, budget_quick=80, budget_thorough=500),
-        Sub("remap", remap_case_st(), check_remap, quick=300, thorough=6000, budget_quick=60, budget_thorough=400)]
+        Sub("remap", remap_case_st(), check_remap, quick=300, thorough=6000, budget_quick=60, budget_thorough=400),
+        Sub("w90", w90_case_st(), check_w90, quick=240, thorough=5000, budget_quick=60, budget_thorough=400)]
